@@ -75,7 +75,7 @@ def load_spec(ctx: core.Ctx) -> Spec:
 # ---- judges: payload (self-contained inputs) -> list of (clause, what) ----------------------------------------
 def judge_facade(spec: Spec, pl: dict) -> tuple[list, dict]:
     w = spec.wiring[("facade", pl["method"])]
-    ps = {"fields": pl["fields"], "args": dict(pl["args"])}
+    ps = {"fields": pl["fields"], "args": dict(pl["args"]), "pressure_box": pl.get("pressure_box", "array")}
     if "pressure" in ps["args"]:
         ps["args"]["pressure"] = np.asarray(ps["args"]["pressure"], dtype=np.dtype(pl.get("pressure_dtype", "float64")))
     try:
@@ -226,7 +226,7 @@ def stage_facade(ctx: core.Ctx, spec: Spec, n_sets: int) -> None:
             args = {a: (ps["args"][a].tolist() if a == "pressure" else ps["args"][a])
                     for a in (s[1] for s in w["sources"] if s[0] == "arg")}
             pl = {"stage": "facade", "method": method, "fields": ps["fields"], "args": args,
-                  "pressure_dtype": str(ps["args"]["pressure"].dtype)}
+                  "pressure_dtype": str(ps["args"]["pressure"].dtype), "pressure_box": ps.get("pressure_box", "array")}
             fails, res = judge_facade(spec, pl)
             ctx.case(f"facade/{method}/{k}")
             worst = max(worst, res.get("ulps", 0))
